@@ -40,6 +40,12 @@ package main
 //     re.ReplaceAllString(s, repl) on a package-level `var re = regexp.MustCompile(<constant>)`: the parameter
 //       re_<var>_ReplaceAllString : bstr -> bstr -> bstr (one per variable; the pattern text is emitted as src_<pkg>_<var>_pattern);
 //       template.HTMLEscapeString as the parameter f_template_HTMLEscapeString
+//     fields of /repo interface type of a struct parameter: n.F.M() and n.F ==/!= nil through the parameters m_n_F_nil,
+//       m_n_F_M (a call on a nil field is None = Go's panic); a field that is a slice of nodes (of such an interface, or of
+//       pointers to a /repo struct with a String method), ranged over and read through x.String() and len: the parameter
+//       ms_n_F_String : list (option bstr) (None = a nil element)
+//     fmt.Sprintf with a constant format of text, %%, %s (a string, or such a field: its String(), "%!s(<nil>)" when nil),
+//       %d (an integer), %q (strconv.Quote as the parameter f_strconv_Quote)
 //     package-level `var m = make(map[V]K)` that a func init() fills as the inverse of a map literal (and nothing
 //       else touches): the inverse list, provided the literal's values are distinct
 //     panic(...)  and calls of methods whose own body ends in panic (t.errorf ...)
@@ -176,6 +182,9 @@ var (
 	tErr    = &gtype{kind: kBool, name: "error", valueKind: -1, isErr: true}
 	// a LOCAL bytes.Buffer, declared by `var x bytes.Buffer`: the bytes written so far (see bufferStmt)
 	tBuffer = &gtype{kind: kString, name: "bytes.Buffer", valueKind: -1}
+	// an element of a slice of nodes (a /repo interface with String() string, or a pointer to a /repo struct with a
+	// String method) that is only asked for its String(): what String() returns, None for a nil element
+	tStringer = &gtype{kind: kOther, name: "a node read through String()", valueKind: -1}
 )
 
 func intType(name string, bits int, signed bool) *gtype {
@@ -190,6 +199,9 @@ var basicInts = map[string]*gtype{
 }
 
 func (t *gtype) coq() string {
+	if t == tStringer {
+		return "option bstr"
+	}
 	switch t.kind {
 	case kBool:
 		return "bool"
@@ -219,6 +231,9 @@ func (t *gtype) coq() string {
 
 // storable: a type whose values can be elements of slices and maps: a supported type, or a struct of such fields.
 func (t *gtype) storable() bool {
+	if t == tStringer {
+		return true
+	}
 	if t.kind == kStruct {
 		if len(t.fields) == 0 {
 			return false
